@@ -1566,7 +1566,8 @@ void World::opStatUpd(const Item& op)
         sp.build = 0;
     sp.payload = body.data();
     sp.len = body.size();
-    sp.junk = mix64(static_cast<uint64_t>(op.get("id", 1)) * 77 + 1);
+    // (junkx: another value for the id field that does NOT apply to this message type - the interface id of a status message)
+    sp.junk = mix64(static_cast<uint64_t>(op.get("id", 1)) * 77 + 1) ^ (static_cast<uint64_t>(op.get("junkx", 0)) << 33);
     const uint16_t dev = static_cast<uint16_t>(op.get("dev", 1));
     lib::PacketRef ref = lib::makePacket(sp, dev, static_cast<uint8_t>(op.get("stream", 0)), static_cast<uint16_t>(op.get("seq", 0)));
     lib::Obs o = lib::observe(ref, false);
